@@ -21,6 +21,7 @@ require (
 	github.com/mitchellh/go-wordwrap v0.0.0-20150314170334-ad45545899c7 // indirect
 	github.com/zclconf/go-cty v1.14.4 // indirect
 	github.com/zclconf/go-cty-yaml v1.1.0 // indirect
+	golang.org/x/mod v0.17.0 // indirect
 	golang.org/x/text v0.21.0 // indirect
 )
 
